@@ -724,6 +724,62 @@ pub fn unspecified(d: &Desc) -> Option<String> {
             }
         }
     }
+    // a default tag or a range tag used as a constant (fixed field, constraint): the reference
+    // only speaks of "an enum tag"; such tags have no single value
+    let valueless_k = |enum_id: &str, tag: &str, ranges_too: bool| -> bool {
+        match d.get(enum_id) {
+            Some(Decl { kind: DeclKind::Enum { tags, .. }, .. }) => tags.iter().any(|t| match t {
+                Tag::Other { id } => id == tag,
+                Tag::Range { id, .. } => ranges_too && id == tag,
+                _ => false,
+            }),
+            _ => false,
+        }
+    };
+    // constraints by a range tag are a rule of their own (E42)
+    let valueless = |enum_id: &str, tag: &str| valueless_k(enum_id, tag, false);
+    let field_enum = |owner: &Decl, field: &str| -> Option<String> {
+        for a in d.ancestry(&owner.id) {
+            for f in a.fields() {
+                if let FieldKind::Typedef { id, type_id } = &f.kind {
+                    if id == field {
+                        return Some(type_id.clone());
+                    }
+                }
+            }
+        }
+        None
+    };
+    for decl in &d.decls {
+        for f in decl.fields() {
+            match &f.kind {
+                FieldKind::FixedEnum { enum_id, tag_id } if valueless_k(enum_id, tag_id, true) => {
+                    return Some("range or default tag used as a fixed value".into());
+                }
+                FieldKind::Group { group_id, constraints } => {
+                    if let Some(g) = d.get(group_id) {
+                        for c in constraints {
+                            if let (CVal::Tag(t), Some(e)) = (&c.val, field_enum(g, &c.id)) {
+                                if valueless(&e, t) {
+                                    return Some("range or default tag used as a constraint value".into());
+                                }
+                            }
+                        }
+                    }
+                }
+                _ => {}
+            }
+        }
+        if let Some(p) = decl.parent().and_then(|p| d.get(p)) {
+            for c in decl.constraints() {
+                if let (CVal::Tag(t), Some(e)) = (&c.val, field_enum(p, &c.id)) {
+                    if valueless(&e, t) {
+                        return Some("range or default tag used as a constraint value".into());
+                    }
+                }
+            }
+        }
+    }
     // a constraint (declaration or group) naming an optional field or a condition flag: the
     // reference does not say what that means
     let special: std::collections::HashSet<&str> = d
